@@ -19,7 +19,7 @@ void setFsize(rlim_t soft) { struct rlimit rl; getrlimit(RLIMIT_FSIZE, &rl); rl.
 
 CaseResult runC15(const Case &c, RunCtx &ctx) {
     CaseResult r;
-    Interp in(ctx);
+    Interp in(ctx, "C15");
     in.run(c);
     std::string why;
     if (!framesComplete(in.o(), &why)) { r.tags.insert("incomplete-at-save"); return r; }
